@@ -50,7 +50,11 @@ def mk_channel(inp, name, cfg):
     eom = None
     if cfg.get("eom"):
         cb = inp.int(name + ".eom_buffer", 1, None) if cfg["eom"].get("custom_buffer") else None
-        eom = stubs.sym_eom(inp.int(name + ".eom_tr", 1, None), custom_buffer_time=cb)
+        eom_tr = inp.int(name + ".eom_tr", 1, None)
+        # documented: the EOM has a *higher* bandwidth than the channel, i.e.
+        # its rise time is not longer (configuration precondition, DESIGN C15)
+        inp.assume(eom_tr <= tr)
+        eom = stubs.sym_eom(eom_tr, custom_buffer_time=cb)
         kw["eom_config"] = eom
     if cfg.get("local"):
         ch = stubs.sym_channel(
@@ -236,20 +240,24 @@ def unchanged(sched, snap):
     return AND(*terms)
 
 
-def only_delays_appended(sched, snap):
+def only_delays_appended(sched, snap, allow_block_close=False):
     """Region of finding F9 at scheduler level: everything is unchanged
-    except plain delay slot(s) appended to a channel."""
+    except delay slot(s) appended to a channel (and, optionally, the open EOM
+    block having been closed)."""
     terms = []
     for name, cs in sched.items():
         old_slots, old_blocks = snap[name]
         if len(cs.slots) < len(old_slots) or not all(a is b for a, b in zip(cs.slots, old_slots)):
             return False
-        if any(s.type != "delay" for s in cs.slots[len(old_slots):]):
+        if any(not (s.type == "delay" or (is_pulse(s) and bool(cs.is_detuned_delay(s.type)))) for s in cs.slots[len(old_slots):]):
             return False
         if len(cs.eom_blocks) != len(old_blocks):
             return False
-        for b, ob in zip(cs.eom_blocks, old_blocks):
+        for j, (b, ob) in enumerate(zip(cs.eom_blocks, old_blocks)):
             if (b.tf is None) != (ob[1] is None):
+                if allow_block_close and j == len(old_blocks) - 1 and ob[1] is None:
+                    terms.append(b.ti == ob[0])
+                    continue
                 return False
             if b.tf is not None:
                 terms.append(b.tf == ob[1])
@@ -323,6 +331,19 @@ def step_harness(shape):
                 sched.add_target(new_t, "own")
             elif op[0] == "wait_for_fall":
                 sched.wait_for_fall("own")
+            elif op[0] == "enable_eom":
+                import pulser.math as pm
+
+                sched.enable_eom("own", pm.AbstractArray(1.0), pm.AbstractArray(0.0), pm.AbstractArray(op[1]))
+            elif op[0] == "disable_eom":
+                sched.disable_eom("own")
+            elif op[0] == "modify_eom":
+                import pulser.math as pm
+
+                # what Sequence.modify_eom_setpoint does at scheduler level
+                sched.disable_eom("own", _skip_buffer=True)
+                sched.enable_eom("own", pm.AbstractArray(2.0), pm.AbstractArray(0.0), pm.AbstractArray(op[1]),
+                                 _skip_wait_for_fall=True)
             else:
                 raise ValueError(op)
         except (ValueError, RuntimeError, TypeError) as e:
@@ -331,6 +352,7 @@ def step_harness(shape):
         if raised is not None:
             obs.append(("c09:raise_unchanged", unchanged(sched, snap)))
             inp.publish("l1_only_delays_left_behind", only_delays_appended(sched, snap))
+            inp.publish("l1_only_delays_and_block_close_left_behind", only_delays_appended(sched, snap, True))
             # a refusal must have a cause: delays below min / above max, or
             # the sequence would exceed the device's maximum duration
             obs.append(("c01:refusal_has_cause", refusal_cause(inp, sched, shape, old, op, t0, locals())))
@@ -356,7 +378,8 @@ def step_harness(shape):
         if op[0] == "add_pulse":
             obs += pulse_obligations(inp, sched, shape, old, new_slots, new_pulse, barriers, t0)
         elif op[0] == "add_delay":
-            obs.append(("c02:delay_one_slot", len(new_slots) == 1 and new_slots[0].type == "delay"))
+            obs.append(("c02:delay_one_slot", len(new_slots) == 1 and (
+                new_slots[0].type == "delay" or (is_pulse(new_slots[0]) and bool(own.is_detuned_delay(new_slots[0].type))))))
             if len(new_slots) == 1:
                 d = new_slots[0].tf - new_slots[0].ti
                 obs.append(("c01:delay_rounding", AND(d >= dur, d < dur + clock, dur >= ch.min_duration)))
@@ -364,6 +387,17 @@ def step_harness(shape):
             obs += target_obligations(inp, sched, shape, old, new_slots, t0, op[1])
         elif op[0] == "wait_for_fall":
             obs += wait_obligations(inp, sched, shape, old, new_slots, t0)
+        elif op[0] in ("enable_eom", "disable_eom", "modify_eom"):
+            obs += eom_obligations(inp, sched, shape, old, snap, new_slots, t0)
+        if _chan_in_eom(ocfg) and op[0] == "add_delay" and len(new_slots) == 1:
+            # idle time in EOM mode sits at the off-detuning
+            det_off = ocfg.get("det_off", 0.0)
+            sl = new_slots[0]
+            if det_off == 0:
+                obs.append(("c15:eom_delay_plain", sl.type == "delay"))
+            else:
+                obs.append(("c15:eom_delay_detuned", is_pulse(sl) and bool(own.is_detuned_delay(sl.type))
+                            and float(sl.type.detuning[0]) == det_off))
         return obs
 
     return h
@@ -396,6 +430,22 @@ def refusal_cause(inp, sched, shape, old, op, t0, loc):
     c_fall = AND(fall > 0, OR(over_seq(sched, t0 + fd), over_len(ch, fd), over_len(ch, smax(fall, ch.min_duration))))
     if op[0] == "wait_for_fall":
         return c_fall
+    buf = adjust_ref(ch._eom_buffer_time, ch, clock) if ch.eom_config is not None else 0
+    if op[0] == "enable_eom":
+        if len(old["own"]) <= 1:
+            return False  # empty channel: nothing is added, nothing can be refused
+        return OR(c_fall, over_seq(sched, t0 + fd + buf), over_len(ch, buf))
+    if op[0] == "modify_eom":
+        if len(old["own"]) <= 1:
+            return False
+        return OR(over_seq(sched, t0 + buf), over_len(ch, buf))
+    if op[0] == "disable_eom":
+        if shape["own"]["eom"].get("custom_buffer"):
+            return OR(over_seq(sched, t0 + buf), over_len(ch, buf))
+        lp2 = last_pulse_idx(own)
+        fall2 = 0 if lp2 is None else smax(fall_end(own, lp2, False) - t0, 0)
+        fd2 = ITE(fall2 > 0, adjust_ref(fall2, ch, clock), 0)
+        return AND(fall2 > 0, OR(over_seq(sched, t0 + fd2), over_len(ch, fd2)))
     if op[0] == "add_target":
         if op[1] == "same":
             return c_fall
@@ -423,7 +473,11 @@ def pulse_obligations(inp, sched, shape, old, new_slots, new_pulse, barriers, t0
     obs.append(("c02:pulse_new_slots", len(new_slots) in (1, 2)))
     s = ps.ti
     if len(new_slots) == 2:
-        obs.append(("c02:pulse_delay_first", new_slots[0].type == "delay"))
+        d0 = new_slots[0]
+        if _chan_in_eom(ocfg) and ocfg.get("det_off", 0.0) != 0:
+            obs.append(("c02:pulse_delay_first", is_pulse(d0) and bool(own.is_detuned_delay(d0.type))))
+        else:
+            obs.append(("c02:pulse_delay_first", d0.type == "delay"))
     bmax = smax([0] + list(barriers))
     expect, raw = expected_start(sched, shape, old, barriers, t0, obs=obs, s=s)
     # minimality / exact start (C03)
@@ -525,6 +579,60 @@ def target_obligations(inp, sched, shape, old, new_slots, t0, which):
     elapsed = ts.ti - prev_target_tf
     want = smax(smax(ch.min_retarget_interval - elapsed, 0), ch.fixed_retarget_t)
     obs.append(("c10:retarget_minimal", d == ITE(want > 0, adjust_ref(want, ch, clock), 0)))
+    return obs
+
+
+def eom_obligations(inp, sched, shape, old, snap, new_slots, t0):
+    """C15-K2: EOM blocks start/end on slot boundaries, buffers of the
+    configured length separate them from ordinary operation, after the
+    previous pulse has ramped down."""
+    obs = []
+    own = sched["own"]
+    ch = own.channel_obj
+    ocfg = shape["own"]
+    clock = ocfg["clock"]
+    op = shape["op"]
+    old_own = old["own"]
+    old_blocks = snap["own"][1]
+    buf_len = adjust_ref(ch._eom_buffer_time, ch, clock)
+    was_in_eom = _chan_in_eom(ocfg)
+    lp = last_pulse_idx(own, before=len(old_own))
+    if op[0] in ("enable_eom", "modify_eom"):
+        det_off = op[1]
+        obs.append(("c15:block_opened", len(own.eom_blocks) == len(old_blocks) + (0 if False else 1) and own.eom_blocks[-1].tf is None))
+        nb = own.eom_blocks[-1]
+        obs.append(("c15:block_starts_at_end", nb.ti == own.slots[-1].tf))
+        obs.append(("c15:block_setpoint", float(nb.detuning_off) == det_off))
+        if op[0] == "modify_eom":
+            obs.append(("c15:old_block_closed_at_old_end", own.eom_blocks[-2].tf == t0))
+        nonempty = len(old_own) > 1  # something after the initial target => duration > 0
+        if not nonempty:
+            obs.append(("c15:no_buffer_on_empty_channel", len(new_slots) == 0))
+        else:
+            obs.append(("c15:buffer_present", len(new_slots) >= 1))
+            if new_slots:
+                b = new_slots[-1]
+                obs.append(("c15:buffer_length", b.tf - b.ti == buf_len))
+                if det_off == 0:
+                    obs.append(("c15:buffer_plain_delay", b.type == "delay"))
+                else:
+                    obs.append(("c15:buffer_detuned", is_pulse(b) and bool(own.is_detuned_delay(b.type))
+                                and float(b.type.detuning[0]) == det_off))
+                if op[0] == "enable_eom" and lp is not None:
+                    # the buffer starts only after the previous pulse's fall
+                    obs.append(("c15:buffer_after_fall", b.ti >= fall_end(own, lp, False)))
+                if op[0] == "modify_eom":
+                    obs.append(("c15:modify_only_buffer", len(new_slots) == 1 and b.ti == t0))
+    else:  # disable_eom
+        obs.append(("c15:block_closed", own.eom_blocks[-1].tf is not None))
+        if own.eom_blocks[-1].tf is not None:
+            obs.append(("c15:block_ends_at_old_end", own.eom_blocks[-1].tf == t0))
+        custom = bool(ocfg["eom"].get("custom_buffer"))
+        if custom:
+            obs.append(("c15:disable_buffer", len(new_slots) == 1 and new_slots[0].type == "delay"
+                        and (new_slots[0].tf - new_slots[0].ti == buf_len)))
+        elif lp is not None:
+            obs.append(("c15:disable_waits_fall", own.slots[-1].tf >= fall_end(own, lp, False)))
     return obs
 
 
@@ -635,3 +743,45 @@ def expected_unreachable(kernel, shape):
             if b == "target" and a.startswith(("pulse", "ddelay")):
                 return True
     return False
+
+
+def eom_shapes(tier):
+    """Shapes for the EOM kernel: pre-state = [base slots][buffer][in-block slots]."""
+    quick = tier == "quick"
+    shapes = []
+    for clock in ([1, 4] if quick else [1, 2, 4, 8]):
+        for custom in (False, True):
+            for det_off in (0.0, -1.5):
+                idle = "delay" if det_off == 0 else "ddelayA"
+                # (a) not in EOM: enable
+                for base in ([], ["pulseA"], ["delay"], ["pulseA", "delay"], ["pulseB", "pulseA"]):
+                    shapes.append(dict(
+                        own=dict(clock=clock, local=False, slots=base, mod=True, pj="derived", det_off=det_off,
+                                 eom=dict(custom_buffer=custom, blocks=[])),
+                        op=["enable_eom", det_off], maxseq=True))
+                # (b) in EOM
+                inblock_lists = [[], ["pulseA"], [idle], ["pulseA", idle], ["pulseA", "pulseB"]]
+                if not quick:
+                    inblock_lists += [[idle, "pulseA"], ["pulseB", idle, idle]]
+                for base in ([], ["pulseA"]):
+                    pre = list(base) + ([idle] if base else [])
+                    for inb in inblock_lists:
+                        slots = pre + inb
+                        blocks = [(len(pre), None)]
+                        ops = [["add_pulse", p, ph] for p in ("min-delay", "no-delay") for ph in ("A", "B")]
+                        ops += [["add_delay"], ["disable_eom"], ["modify_eom", det_off], ["modify_eom", -0.5], ["wait_for_fall"]]
+                        for op in ops:
+                            shapes.append(dict(
+                                own=dict(clock=clock, local=False, slots=slots, mod=True, pj="derived", det_off=det_off,
+                                         eom=dict(custom_buffer=custom, blocks=blocks)),
+                                op=op, maxseq=True, nbarriers=1))
+                # (c) closed block followed by ordinary operation
+                for tail in ([], ["delay"], ["delay", "pulseA"]):
+                    slots = ["pulseA", idle, "pulseB"] + tail
+                    blocks = [(2, 3)]
+                    for op in ([["add_pulse", "min-delay", "A"], ["add_delay"], ["enable_eom", det_off], ["wait_for_fall"]]):
+                        shapes.append(dict(
+                            own=dict(clock=clock, local=False, slots=slots, mod=True, pj="derived", det_off=det_off,
+                                     eom=dict(custom_buffer=custom, blocks=blocks)),
+                            op=op, maxseq=True, nbarriers=1))
+    return shapes
